@@ -1,14 +1,103 @@
-(* C04 - Button and blinds move by the dead-button rule (under construction: see below). *)
-From Coq Require Import List Arith Lia Bool PeanoNat.
-From PT Require Import Base.Circ.
+(* C04 - Button and blinds move by the dead-button rule, for every history.
+   Statements only; proofs are `exact <lemma>` from Proofs/C04_proofs.v and Proofs/C04_inv.v.
+   The four circular scans of the model take their index expression, bounds and acceptance
+   predicate from Gen/Gen_Seat.v, regenerated from seat_manager_internal.go on every run: with
+   a hard-coded modulus (as the code had before the repair) the lemmas *_idx_ok do not hold
+   and this file does not compile. *)
+From Coq Require Import List ZArith Bool Arith Lia.
+Import ListNotations.
+From PT Require Import Base.ZScan Model.SeatManager Spec.C04_spec Proofs.C04_proofs Proofs.C04_inv.
+Open Scope Z_scope.
 
-(* The circular scan, for an ARBITRARY seat count n: the first seat found by the loop is the
-   one at minimal clockwise distance satisfying P, and a failed scan means no seat does. *)
-Theorem C04_scan_finds_nearest : forall P n s r, s < n -> cnext P n s = Some r ->
-  P r = true /\ r < n /\ r <> s /\ forall c, c < n -> c <> s -> P c = true -> cwd n s r <= cwd n s c.
-Proof. exact cnext_some. Qed.
-Print Assumptions C04_scan_finds_nearest.
+(* 1. The scans, for an arbitrary seat count: the seat found is the acceptable seat at minimal
+      clockwise (counter-clockwise) distance; a failed scan means no other seat is acceptable. *)
+Theorem C04_next_live_is_nearest : forall s start, wf s -> in_rng s start ->
+  let r := next_in_chips s start in
+  (r = unset /\ none_other (mx s) (live s) start) \/ nearest_cw (mx s) (live s) start r.
+Proof. exact next_in_chips_spec. Qed.
+Print Assumptions C04_next_live_is_nearest.
 
-Theorem C04_scan_none : forall P n s c, s < n -> cnext P n s = None -> c < n -> c <> s -> P c = false.
-Proof. exact cnext_none. Qed.
-Print Assumptions C04_scan_none.
+Theorem C04_prev_live_is_nearest : forall s start, wf s -> in_rng s start ->
+  let r := prev_alive s start in
+  (r = unset /\ none_other (mx s) (live s) start) \/ nearest_ccw (mx s) (live s) start r.
+Proof. exact prev_alive_spec. Qed.
+Print Assumptions C04_prev_live_is_nearest.
+
+(* 2. One default-rule rotation from any well-formed state with the big blind on a seat and
+      sb <> bb (every reachable initialised state is such: theorem 4), clause by clause.
+      FULL STATEMENT of the property: C04_rotate_default_ok s r s' = true.  It is false of the
+      faithful model (3.); what is proved is everything except
+        - "refused only when fewer than two live": refused => fewer than two live OR a live
+          player is still flagged as waiting                      (finding F8)
+        - "the three seats are distinct": unless the new big blind lands on the old small-blind
+          seat                                                     (finding F7) *)
+Theorem C04_rotation_partial : forall s, wf s -> in_rng s (sm_bb s) -> sm_sb s <> sm_bb s ->
+  let '(r, s') := rotate_default s in
+  same_occupants s s' = true /\ cl_refused_noop s r s' = true /\ cl_bb s r s' = true /\ cl_headsup s r s' = true
+  /\ ((count s (live s) < 2)%nat -> r = Err)
+  /\ (r = Ok -> (2 <= count s (live s))%nat)
+  /\ (r = Err -> (count s (live s) < 2)%nat \/ sig_live_waiting s' = true)
+  /\ (sig_bb_reaches_old_sb s s' = false -> cl_ring s r s' = true).
+Proof. exact rotate_default_sound. Qed.
+Print Assumptions C04_rotation_partial.
+
+Theorem C04_short_deck : forall s, wf s -> in_rng s (sm_dealer s) -> sd_inv s ->
+  let '(r, s') := rotate_short s in C04_rotate_short_ok s r s' = true.
+Proof. exact rotate_short_sound. Qed.
+Print Assumptions C04_short_deck.
+
+(* 3. The two clauses that are false of the faithful model, with witnesses that are histories of
+      API operations from an empty 4-seat table (replayed on the implementation by the check:
+      corpus/C04). *)
+Definition h_common : list op :=
+  [OAssign [(1%nat, 0); (2%nat, 1); (3%nat, 2)]; OJoin [1%nat; 2%nat; 3%nat]; OInit false 0;
+   OAssign [(4%nat, 3)]; OJoin [4%nat]].
+Definition last_transition (os : list op) : option (sm * op * res * sm) := last (map Some (run (new_sm 4 RDefault) os)) None.
+
+(* F8: players 1 and 3 bust while newcomer 4 waits between small and big blind: the rotation is
+   refused although players 2 and 4 are seated-in with chips *)
+Theorem C04_refusal_refuted : exists os s r s',
+  last_transition os = Some (s, ORotate, r, s') /\ r = Err /\ (2 <= count s (live s))%nat /\ cl_refusal s r = false.
+Proof.
+  exists (h_common ++ [OChips 1 false; OChips 3 false; ORotate]).
+  eexists. eexists. eexists. vm_compute. repeat split; try reflexivity; try lia.
+Qed.
+
+(* F7: player 2 (on the button's left) busts while newcomer 4 waits: three are dealt in and the
+   dealer seat equals the big-blind seat *)
+Theorem C04_ring_distinct_refuted : exists os s r s',
+  last_transition os = Some (s, ORotate, r, s') /\ r = Ok /\ (3 <= count s' (act s'))%nat
+  /\ sm_dealer s' = sm_bb s' /\ cl_ring s r s' = false.
+Proof.
+  exists (h_common ++ [OChips 2 false; ORotate]).
+  eexists. eexists. eexists. vm_compute. repeat split; try reflexivity; try lia.
+Qed.
+
+(* 4. Every history: any seat count >= 2, either rule, any sequence of assign / random assign /
+      remove / join / chips / init / rotate operations (random draws being any dealt-in seat):
+      every rotation in it satisfies the full specification C04_ok, unless it falls under one of
+      the two signatures above. *)
+Theorem C04_every_history : forall max r os, (2 <= max)%nat -> valid_ops (new_sm max r) os ->
+  forall s res s', In (s, ORotate, res, s') (run (new_sm max r) os) ->
+  sig_bb_reaches_old_sb s s' = false -> (res = Err -> sig_live_waiting s' = false) ->
+  C04_ok s ORotate res s' = true.
+Proof. exact history_rotations_ok. Qed.
+Print Assumptions C04_every_history.
+
+(* the reachable-state invariant used for 4. *)
+Theorem C04_invariant : forall s o, Inv s -> valid_op s o -> Inv (snd (step s o)).
+Proof. exact Inv_step. Qed.
+Print Assumptions C04_invariant.
+
+(* Non-vacuity: a 6-seat history with a bust, a newcomer, a leave and five rotations satisfies
+   the guard, all rotations succeed, none falls under a signature, and the button seats move as
+   one expects. *)
+Example C04_example :
+  let os := [OAssign [(1%nat, 0); (2%nat, 2); (3%nat, 3); (4%nat, 5)]; OJoin [1%nat; 2%nat; 3%nat; 4%nat]; OInit false 0;
+             ORotate; OChips 2 false; ORotate; OAssign [(5%nat, 1)]; OJoin [5%nat]; ORotate; ORemove [3%nat]; ORotate; ORotate] in
+  map (fun x => let '(s, o, r, s') := x in
+                match o with ORotate => Some (r, sm_dealer s', sm_sb s', sm_bb s', sig_bb_reaches_old_sb s s') | _ => None end)
+      (run (new_sm 6 RDefault) os)
+  = [None; None; None; Some (Ok, 5, 0, 2, false); None; Some (Ok, 0, 2, 3, false); None; None;
+     Some (Ok, 2, 3, 5, false); None; Some (Ok, 3, 5, 0, false); Some (Ok, 5, 0, 1, false)].
+Proof. vm_compute. reflexivity. Qed.
